@@ -222,7 +222,9 @@ TProbe == /\ Is("probe") /\ Adv /\ Keep /\ Stutter
 TInfo == /\ \/ Is("sendCall") \/ Is("closeQuit")
             \/ Is("closeDone") \/ Is("fin") \/ Is("pongTimeout")
             \/ Is("note") \/ Is("new") \/ Is("setN") \/ Is("hsDone")
-            \/ Is("closeCall") \/ Is("closeRet")
+            \/ Is("closeCall") \/ Is("closeRet") \/ Is("sExit") \/ Is("rExit")
+            \/ Is("blockedAtClose") \/ Is("netAtClose") \/ Is("postSend")
+            \/ Is("postRecv") \/ Is("peerCheck") \/ Is("inventory")
          /\ Adv /\ Stutter /\ UNCHANGED <<held, szS, strict>>
          /\ dead' = IF Ev.ev \in {"closeQuit", "fin", "pongTimeout"}
                     THEN [dead EXCEPT ![E] = TRUE] ELSE dead
